@@ -36,9 +36,7 @@ def select(irset: Dict[str, Any], state: str, mode: str, target: int, fan: str, 
     caps = capabilities(irset)
     keys = {w["Key"] for w in irset["IRWaveList"]}
     if mode not in caps["modes"]:
-        if not caps["toggle"] and state == "OFF":
-            return ("unspecified", "OFF on a non-toggle remote with an unsupported mode")
-        return ("reject_mode", caps["modes"])
+        return ("reject_mode", caps["modes"])   # "an unsupported mode is refused" holds whatever else was asked
     if not caps["toggle"] and state == "OFF":
         if "off" in keys:
             return ("key", "off")
